@@ -343,6 +343,8 @@ where
 
         let mut data = &mut self.data;
         let mut pos = 0;
+        // Offset slot of the currently last item (if it is an open one) and the offset that will seal it.
+        let mut open_item = None;
 
         loop {
             let offset = *L::from_bytes(data)?;
@@ -353,13 +355,13 @@ where
                 let payload_size = ceil_mul(T::from_bytes(payload)?.size(), Self::ALIGN);
                 let last_offset = offset_size + payload_size;
                 pos += last_offset;
-                L::from_usize(last_offset)
+                let sealed_offset = L::from_usize(last_offset)
                     .and_then(|o| if o < L::max_value() { Some(o) } else { None })
                     .ok_or(Error {
                         kind: ErrorKind::InsufficientSize,
                         pos,
-                    })?
-                    .emplace(offset_slot)?;
+                    })?;
+                open_item = Some((offset_slot, sealed_offset));
                 (_, data) = payload.split_at_mut(payload_size);
                 break;
             }
@@ -375,9 +377,15 @@ where
             });
         }
 
+        // Nothing of the existing chain has been modified so far: if the item cannot be emplaced
+        // (only unused space is written by then) the vector stays as it was.
         let (offset_slot, payload) = data.split_at_mut(offset_size);
+        let item = emplacer.emplace(payload)?;
         L::max_value().emplace(offset_slot)?;
-        emplacer.emplace(payload)
+        if let Some((last_offset_slot, sealed_offset)) = open_item {
+            sealed_offset.emplace(last_offset_slot)?;
+        }
+        Ok(item)
     }
     pub fn push_default(&mut self) -> Result<&mut T, Error>
     where
